@@ -16,9 +16,12 @@ Lemma py_eq_refl v : py_eq v v = true.
 Proof. destruct v as [|b|z|neg m|neg|s]; simpl; try reflexivity.
   - apply Qeq_bool_refl. - apply Qeq_bool_refl. - apply Qeq_bool_refl. - apply Bool.eqb_reflx. - apply String.eqb_refl. Qed.
 
-Lemma pdict_get_self : forall kvs k v, distinct_keys kvs = true -> In (k, v) kvs -> pdict_get kvs k = Some v.
+Lemma same_constant_refl v : same_constant v v = true.
+Proof. unfold same_constant. rewrite py_eq_refl. destruct v; reflexivity. Qed.
+
+Lemma pdict_find_self : forall kvs k v, distinct_keys kvs = true -> In (k, v) kvs -> pdict_find kvs k = Some (k, v).
 Proof. induction kvs as [|[k' v'] kvs IH]; intros k v Hd Hin; [destruct Hin|].
-  cbn [distinct_keys] in Hd. apply andb_prop in Hd as [H1 H2]. apply negb_true_iff in H1. cbn [pdict_get].
+  cbn [distinct_keys] in Hd. apply andb_prop in Hd as [H1 H2]. apply negb_true_iff in H1. cbn [pdict_find].
   destruct Hin as [E|Hin].
   - inversion E; subst. rewrite py_eq_refl. reflexivity.
   - destruct (py_eq k k') eqn:E.
@@ -27,17 +30,14 @@ Proof. induction kvs as [|[k' v'] kvs IH]; intros k v Hd Hin; [destruct Hin|].
       rewrite H1 in X. discriminate X.
     + exact (IH k v H2 Hin). Qed.
 
-Lemma pdict_sub_refl kvs : distinct_keys kvs = true -> pdict_sub kvs kvs = true.
-Proof. intros Hd. unfold pdict_sub. rewrite forallb_forall. intros [k v] Hin. cbn [fst snd].
-  rewrite (pdict_get_self kvs k v Hd Hin). apply py_eq_refl. Qed.
-
 Lemma is_equal_refl_n c dd : forall n e, esize e < n -> printable c dd e = true -> is_equal e e = true.
 Proof. induction n as [|n IH]; intros e Hs H; [lia|]. destruct e as [nm|v|vs|kvs|op i m p args]; cbn [is_equal].
   - apply String.eqb_refl.
-  - apply py_eq_refl.
-  - apply Nat.eqb_refl.
+  - apply same_constant_refl.
+  - apply list_eqb_refl. intros x _. apply same_constant_refl.
   - cbn [printable] in H. apply andb_prop in H as [H _]. apply andb_prop in H as [H _]. apply andb_prop in H as [_ Hd].
-    rewrite Nat.eqb_refl, (pdict_sub_refl kvs Hd). reflexivity.
+    rewrite Nat.eqb_refl. cbn [andb]. rewrite forallb_forall. intros [k v] Hin. cbn [fst snd].
+    rewrite (pdict_find_self kvs k v Hd Hin), !same_constant_refl. reflexivity.
   - cbn [printable] in H. apply andb_prop in H as [H _]. apply andb_prop in H as [Hp Ha]. destruct p; [discriminate Hp|].
     rewrite String.eqb_refl, Bool.eqb_reflx. cbn [params_equal andb].
     rewrite forallb_forall in Ha. apply list_eqb_refl. intros x Hx. apply IH; [pose proof (esize_arg op i m None args x Hx); lia|exact (Ha x Hx)]. Qed.
